@@ -332,7 +332,7 @@ func interiorDist(x, a, b Point, minDist s1.ChordAngle, alwaysUpdate bool) (s1.C
 // pair of edges. If the two edges cross, the distance is zero. The cases
 // a0 == a1 and b0 == b1 are handled correctly.
 func updateEdgePairMinDistance(a0, a1, b0, b1 Point, minDist s1.ChordAngle) (s1.ChordAngle, bool) {
-	if minDist == 0 {
+	if minDist <= 0 {
 		return 0, false
 	}
 	if CrossingSign(a0, a1, b0, b1) == Cross {
